@@ -122,7 +122,15 @@ class Ctx:
             r = subprocess.run(cmd, cwd=REPO, env=e, capture_output=True, text=True, timeout=timeout + 60)
         except subprocess.TimeoutExpired:
             raise Inconclusive("overlay test of %s timed out" % app)
+        self.overlay_crash = None
         if r.returncode != 0 or not os.path.exists(out_path):
+            txt = r.stdout + r.stderr
+            m = re.search(r"^(panic: [^\n]*|fatal error: [^\n]*)", txt, re.M)
+            # a panic in a goroutine of the application (its stack goes through the repository, not through the injected
+            # test) ends the test process: that is the application dying on this input, not a fault of the harness
+            if m and "go-ntrip/" in txt[m.start():] and os.path.exists(out_path):
+                self.overlay_crash = dict(what=m.group(1)[:200], trace=txt[m.start():m.start() + 3000])
+                return r
             raise Inconclusive("overlay test of %s failed rc=%d:\n%s\n%s" % (app, r.returncode, r.stdout[-3000:], r.stderr[-3000:]))
         return r
 
